@@ -142,6 +142,14 @@ func c15Mutants(name string, root any) []c15mut {
 					add(ptr, "retype-"+jsonType(alt), fmt.Sprintf("%s: %s -> %s", ptrString(ptr), jsonType(v), jsonType(alt)), setAt(root, ptr, alt, false), "")
 				}
 			}
+			// emptied containers (e.g. `security: [{}]`, `responses: {}`, `parameters: []`)
+			if m, ok := v.(map[string]any); ok && len(m) > 0 {
+				add(ptr, "empty-map", ptrString(ptr)+" = {}", setAt(root, ptr, map[string]any{}, false), "")
+			}
+			if l, ok := v.([]any); ok && len(l) > 0 {
+				add(ptr, "empty-list", ptrString(ptr)+" = []", setAt(root, ptr, []any{}, false), "")
+				add(ptr, "prepend-empty-map", ptrString(ptr)+" = [{}, ...]", setAt(root, ptr, append([]any{map[string]any{}}, l...), false), "")
+			}
 			if s, ok := v.(string); ok {
 				switch key {
 				case "$ref":
@@ -202,6 +210,10 @@ func c15Mutants(name string, root any) []c15mut {
 				for _, alt := range []any{float64(7), true, []any{"a"}} {
 					add(append(append([]string{}, ptr...), "default"), "var-default-"+jsonType(alt), ptrString(ptr)+"/default non-string", setAt(root, append(append([]string{}, ptr...), "default"), alt, false), "")
 				}
+				// a default that mentions its own (or another) variable
+				self := "{" + ptr[len(ptr)-1] + "}"
+				add(append(append([]string{}, ptr...), "default"), "var-default-self", ptrString(ptr)+"/default = "+self, setAt(root, append(append([]string{}, ptr...), "default"), self, false), "")
+				add(append(append([]string{}, ptr...), "default"), "var-default-selfx", ptrString(ptr)+"/default = x"+self, setAt(root, append(append([]string{}, ptr...), "default"), "x"+self, false), "")
 			}
 			for _, k := range spec.SortedKeys(x) {
 				walk(x[k], append(ptr, k))
@@ -406,6 +418,11 @@ func C15(run *report.Run) {
 			run.Violate(&report.Violation{Attrs: map[string]string{"class": "panic", "frame": fr, "panicclass": DiagClass(stripQuoted(r.Msg))}, State: state,
 				Observed: "panic: " + r.Msg + " in " + fr, Expected: "success or an error", Detail: map[string]any{"job": j, "stack": r.Stack}})
 			cliSet = append(cliSet, i)
+		case genrun.GenHang:
+			outcomes["hang"]++
+			judged++
+			run.Violate(&report.Violation{Attrs: map[string]string{"class": "hang", "mutation": m.kind}, State: state,
+				Observed: "the generator did not terminate: " + r.Msg, Expected: "success or an error", Detail: map[string]any{"job": j}})
 		case genrun.GenFatal:
 			if strings.Contains(r.Stack, "github.com/vkd/goag/specification") || strings.Contains(r.Stack, "github.com/vkd/goag/generator") || strings.Contains(r.Stack, "github.com/vkd/goag.") {
 				outcomes["fatal"]++
